@@ -109,7 +109,8 @@ inductive Outcome where
 /-- one potentially panicking construct found in the code reachable from stateless validation / ante / arg decoding -/
 structure Site where
   pkg : String
-  fn : String      -- `Recv.Method` or `Func`
+  recv : String    -- receiver type name ("" for a plain function)
+  meth : String    -- method / function name
   line : Nat
   kind : String    -- panic | must | index | slice | assert | div | nilint | nilcoin | deref
   expr : String
@@ -118,6 +119,9 @@ structure Site where
   deriving Repr
 
 /-- identity of a site for review purposes: NOT the line number -/
-def Site.key (s : Site) : String × String × String × String := (s.pkg, s.fn, s.kind, s.expr)
+def Site.key (s : Site) : String × String × String × String × String := (s.pkg, s.recv, s.meth, s.kind, s.expr)
+
+/-- `Recv.Method` or `Func` -/
+def Site.fn (s : Site) : String := if s.recv == "" then s.meth else s.recv ++ "." ++ s.meth
 
 end FxVerif.Model.C20Base
